@@ -23,6 +23,7 @@ var (
 	repoDir    = envOr("VERIF_REPO", "/repo/v2")
 	verifDir   = envOr("VERIF_DIR", "/verif")
 	harnessDir = filepath.Join(verifDir, "harness")
+	outDir     = envOr("VERIF_OUT", verifDir) // evidence and replays (overridden when checks are tried on a scratch copy of the repository)
 )
 
 func envOr(k, d string) string {
@@ -308,6 +309,9 @@ func runHarness(l *Loaded, spec HarnessSpec, workers int, verbose bool, dumpDir 
 					}
 					mu.Lock()
 					defer mu.Unlock()
+					if verbose {
+						fmt.Printf("  case done: %s paths=%d queries=%d\n", caseName(j.cases), c.paths, c.solver.Local.Queries)
+					}
 					rep.Cases++
 					rep.Paths += c.paths
 					rep.VerdictQ += c.verdictQ
